@@ -1071,4 +1071,85 @@ theorem segWF_call (g : G) (t : Tid) (op : Op) (sc : List Nat) (h : SegWF g) : S
   obtain ⟨as, has⟩ := call_is_execAll g t op sc
   rw [has]; exact segWF_execAll as g h
 
+/-! ## the invariant is established by a (sequential) first creation -/
+
+theorem lookupFd_mem (pr : Proc) (fd : Nat) (s' : SegId) (h : lookupFd pr fd = some s') : (fd, s') ∈ pr.fds := by
+  simp only [lookupFd, Option.map_eq_some_iff] at h
+  obtain ⟨x, hx, rfl⟩ := h
+  have h1 := List.find?_some hx
+  have h2 := List.mem_of_find?_eq_some hx
+  simp only [decide_eq_true_eq] at h1
+  rw [← h1]; exact h2
+
+/-- what is known of the OS after a successful first `p_shm_new` (lock semaphore stale or not) -/
+theorem creation_facts (g : G) (t : Tid) (h : Hid) (k : ShmKey) (size : Nat) (ro : Bool)
+    (hi : Idle g t) (hh : g.hs h = none) (hk : g.os.shmNames k = none) (hs : size ≠ 0) :
+    let g' := g.call t (.newShm h k size ro)
+    g'.os.shmNames k = some g.os.nextSeg ∧ (g'.os.segs g.os.nextSeg).bytes = List.replicate size 0 ∧
+    g'.os.nextSeg = g.os.nextSeg + 1 ∧
+    g'.os.procs = (fun q => if q = g.pidOf t then (g.os.procs (g.pidOf t)).afterNew g.os.nextSeg size ro else g.os.procs q) ∧
+    g'.hs = (fun h' => if h' = h then some (g.pidOf t, .shm (creatorHandle g t k size ro)) else g.hs h') ∧
+    g'.calls t = none ∧ g'.pidOf = g.pidOf := by
+  simp only
+  cases hl : g.os.semNames (.lock k) with
+  | none =>
+    have c := call_newShm_fresh g t h k size ro hi hh hk hl hs
+    refine ⟨?_, ?_, ?_, ?_, c.2.1, c.2.2.1, c.2.2.2⟩ <;> (rw [c.1]; simp [OS.semCreate, OS.afterShmNew, OS.shmCreate])
+  | some ol =>
+    have c := call_newShm_fresh_stale_lock g t h k size ro ol hi hh hk hl hs
+    refine ⟨?_, ?_, ?_, ?_, c.2.1, c.2.2.1, c.2.2.2⟩ <;> (rw [c.1]; simp [OS.semCreate, OS.semRemove, OS.afterShmNew, OS.shmCreate])
+
+/-- After a first creation of `k` — no live handle of `k`, no `p_shm_new (k)` in flight — the segment
+    exists: `KeyInv k (new object) size` holds (and `MapInv`, `SegWF` still do). -/
+theorem keyInv_after_creation (g : G) (t : Tid) (h : Hid) (k : ShmKey) (size : Nat) (ro : Bool)
+    (hM : MapInv g) (hS : SegWF g) (hi : Idle g t) (hh : g.hs h = none) (hk : g.os.shmNames k = none) (hs : size ≠ 0)
+    (hnoH : ∀ h' p y, g.hs h' = some (p, .shm y) → y.key ≠ k)
+    (hnoF : ∀ t' hid st, g.calls t' = some (.shmNew hid st) → st.key ≠ k) :
+    KeyInv k g.os.nextSeg size (g.call t (.newShm h k size ro)) := by
+  obtain ⟨f1, f2, f3, f4, f5, f6, f7⟩ := creation_facts g t h k size ro hi hh hk hs
+  have hco := call_calls_other g t (.newShm h k size ro) []
+  refine ⟨f1, by rw [f2]; simp, hs, by rw [f3]; exact Nat.lt_succ_self _, ?_, ?_, ?_⟩
+  · intro h' p y hy hky
+    rw [f5] at hy
+    dsimp only at hy
+    split at hy
+    · simp only [Option.some.injEq, Prod.mk.injEq, Handle.shm.injEq] at hy
+      obtain ⟨rfl, rfl⟩ := hy
+      refine ⟨Nat.le_refl _, ?_⟩
+      intro m hm hma
+      rw [f4] at hm
+      simp only [if_true, Proc.afterNew, List.mem_cons] at hm
+      rcases hm with rfl | hm'
+      · refine ⟨rfl, mapShared, ?_⟩
+        intro hro; simp only [creatorHandle] at hro; subst hro; exact rwWritable
+      · have := hM.claims.fresh _ m hm'
+        simp only [creatorHandle] at hma
+        omega
+    · exact absurd hky (hnoH h' p y hy)
+  · intro t' hid st hc hkey
+    by_cases e : t' = t
+    · subst e; rw [f6] at hc; cases hc
+    · rw [hco t' e] at hc; exact absurd hkey (hnoF t' hid st hc)
+  · intro t' hid st fd hc hpc
+    by_cases e : t' = t
+    · subst e; rw [f6] at hc; cases hc
+    · rw [hco t' e] at hc
+      have hlt := hS.flightFd t' hid st fd hc (by rw [hpc]; rfl)
+      rw [f7]
+      refine ⟨?_, ?_⟩
+      · rw [f4]; dsimp only; split
+        · rename_i e'; rw [e'] at hlt; simp only [Proc.afterNew]; omega
+        · exact hlt
+      · intro s' hs'
+        have hmem : (fd, s') ∈ (g.os.procs (g.pidOf t')).fds := by
+          rw [f4] at hs'
+          dsimp only at hs'
+          split at hs'
+          · rename_i e'
+            have := lookupFd_mem _ _ _ hs'
+            simp only [Proc.afterNew] at this
+            rw [e']; exact (List.mem_filter.mp this).1
+          · exact lookupFd_mem _ _ _ hs'
+        exact Nat.ne_of_lt (hS.fdsSeg _ _ hmem)
+
 end PV.IPC
